@@ -79,6 +79,9 @@ pub enum FsOp {
     Seek,
     Fsync,
     Close,
+    Rename,
+    Unlink,
+    Stat,
     Lock,
     Unlock,
     Env,
@@ -664,6 +667,75 @@ impl Backend for SimBackend {
                 w.push(FsOp::Close, key, 0, 0);
             },
             || (),
+        )
+    }
+
+    fn rename(&self, from: &Path, to: &Path) -> io::Result<()> {
+        with_run(
+            |r| {
+                r.point(PKind::Fs);
+                let (rf, rt) = (path_str(from), path_str(to));
+                let mut w = r.world.lock().unwrap();
+                match w.fs.rename(&rf, &rt) {
+                    Ok((_, tk)) => {
+                        // the target now holds what was written under the old name
+                        w.written_in_phase.insert(tk.clone());
+                        w.cs_files.insert(tk.clone());
+                        w.push(FsOp::Rename, tk, 0, 0);
+                        Ok(())
+                    }
+                    Err(e) => {
+                        let k = w.key_of(&rt);
+                        w.push(FsOp::Rename, k, 0, e);
+                        Err(errno(e))
+                    }
+                }
+            },
+            || Err(errno(simfs::EIO)),
+        )
+    }
+
+    fn remove_file(&self, path: &Path) -> io::Result<()> {
+        with_run(
+            |r| {
+                r.point(PKind::Fs);
+                let raw = path_str(path);
+                let mut w = r.world.lock().unwrap();
+                match w.fs.unlink(&raw) {
+                    Ok(k) => {
+                        w.push(FsOp::Unlink, k, 0, 0);
+                        Ok(())
+                    }
+                    Err(e) => {
+                        let k = w.key_of(&raw);
+                        w.push(FsOp::Unlink, k, 0, e);
+                        Err(errno(e))
+                    }
+                }
+            },
+            || Err(errno(simfs::EIO)),
+        )
+    }
+
+    fn stat(&self, path: &Path) -> io::Result<(bool, u64)> {
+        with_run(
+            |r| {
+                r.point(PKind::Fs);
+                let raw = path_str(path);
+                let mut w = r.world.lock().unwrap();
+                let k = w.key_of(&raw);
+                match w.fs.stat(&raw) {
+                    Ok(x) => {
+                        w.push(FsOp::Stat, k, x.1 as i64, 0);
+                        Ok(x)
+                    }
+                    Err(e) => {
+                        w.push(FsOp::Stat, k, 0, e);
+                        Err(errno(e))
+                    }
+                }
+            },
+            || Err(errno(simfs::EIO)),
         )
     }
 
